@@ -50,6 +50,12 @@ def instances(tier):
               [I("CALLVALUE"), I("ISZERO"), I("CALLVALUE"), I("ISZERO")],
               [I("ADDRESS"), I("BALANCE"), I("ADDRESS"), I("BALANCE"), I("ADD")],
               [I("CALLVALUE"), I("CALLVALUE"), I("ADD"), I("CALLVALUE")]]
+    # three-operand instructions (their third operand sits two positions before its consumer at the earliest)
+    alpha4 = [I("ADDMOD"), I("MULMOD"), I("ISZERO"), I("SWAP1"), I("SWAP2"), P(7), I("DUP1")]
+    b4 = [b for b in B.tree(alpha4, 4, max_need=3) if sum(1 for o, _ in b if o in ("ADDMOD", "MULMOD")) == 1
+          and b[-1][0] in ("ADDMOD", "MULMOD")]
+    reuse += b4[::6] if tier == "quick" else b4
+    reuse += [[I("ISZERO"), P(7), I("SWAP2"), I("ADDMOD")], [I("SWAP2"), I("ISZERO"), I("SWAP2"), I("MULMOD")]]
     REUSE_KEYS.clear()
     REUSE_KEYS.update(tuple(b) for b in reuse)
     blocks += reuse
